@@ -16,7 +16,7 @@ LEVEL = 'model_checking'
 USES_BATCH = True
 RULE = ('~230 valid base queries covering every clause and every alias family x renderings: every subset of whitespace '
         'split points when the query has <= 9 words (else all single and double split points, fully split and fully '
-        'joined), case variants {lower, UPPER, Capitalised} of each word token one at a time and all at once, every alias '
+        'joined), case variants {lower, UPPER, Capitalised} of each word token one at a time and all at once, the fully re-cased query again under every split set, every alias '
         'of every documented table substituted one occurrence at a time (thorough: all pairs), round<->curly brackets, '
         'leading select, optional commas, explicit asc, () after an argument-less function; non-trivial = rendering differs '
         'textually from the base')
@@ -62,6 +62,9 @@ EXTRA = [
     'name from . nogitignore nohgignore nodockerignore', 'name from . maxdepth 2 mindepth 1', 'name , current_uid from . limit 1',
     'name from . where ( size > 1 and ( name = a.txt or ext = rs ) )', 'name from . order by size desc , name limit 4',
     'name , upper(name) , lower(ext) from . where length(name) > 3', 'name where size gt 1 order by 1',
+    'ext , lower(ext) , count(*) from . group by ext , lower(ext) order by 1', 'is_dir , ext , size , count(*) from . group by is_dir , ext , size order by 2',
+    'lower(ext) , length(name) , count(*) from . group by lower(ext) , length(name) order by 1 , 2',
+    'name , size from sub , e order by size desc , name', 'ext , count(*) from . , sub group by ext order by ext',
 ]
 
 
@@ -299,7 +302,14 @@ def eval_group(env, group, tier):
         return [{'case': {'base': group['base'], 'argv': base_argv}, 'status': 'viol', 'cls': 'base-query-rejected',
                  'detail': dict(o0.brief(), argv=base_argv), 'nt': True, 'sig': ('base',)}]
     seen = set()
-    gens = itertools.chain(split_renderings(q, tier), alias_renderings(q, tier), case_renderings(q), optional_renderings(q))
+    # letter case combined with every split set: the UPPER-cased and Capitalised query under all its splits
+    def cased_splits():
+        idx = [i for i, t in enumerate(q) if word_kind(t)]
+        for f in (str.upper, str.capitalize):
+            q2 = [recase(t, f) if i in idx else t for i, t in enumerate(q)]
+            for parts, _ in split_renderings(q2, tier):
+                yield parts, 'case+split'
+    gens = itertools.chain(split_renderings(q, tier), alias_renderings(q, tier), case_renderings(q), optional_renderings(q), cased_splits())
     n = 0
     for argv, kind in gens:
         key = '\x1f'.join(argv)
